@@ -11,6 +11,7 @@ from .conversion_utils import run_conversion_loop
 from .read import SgzReader
 from .sgzconstants import DISK_BLOCK_BYTES, SEGY_FILE_HEADER_BYTES
 from .seismicfile import SeismicFile, Filetype
+from .version import SeismicZfpVersion
 from .utils import (pad,
                     define_blockshape_2d,
                     define_blockshape_3d,
@@ -350,12 +351,12 @@ class SgzConverter(SgzReader):
             inline_bytes = (self.shape_pad[2] * self.shape_pad[1] * self.rate) // 8
             for i in range(padded_shape[0] // new_blockshape[0]):
                 if (i + 1) * new_blockshape[0] > self.n_ilines:
-                    i_count = (self.n_ilines % new_blockshape[0] + 4) // 4
+                    i_count = (self.n_ilines % new_blockshape[0] + 3) // 4
                 else:
                     i_count = 16
                 for x in range(padded_shape[1] // new_blockshape[1]):
                     if (x + 1) * new_blockshape[1] > self.n_xlines:
-                        x_count = (self.n_xlines % new_blockshape[1] + 4) // 4
+                        x_count = (self.n_xlines % new_blockshape[1] + 3) // 4
                     else:
                         x_count = 16
                     buffer = bytearray(self.chunk_bytes*16*16)
@@ -370,9 +371,13 @@ class SgzConverter(SgzReader):
                                 buffer[u*self.chunk_bytes + z*self.unit_bytes:
                                        u*self.chunk_bytes + (z+1)*self.unit_bytes]
                         outfile.write(new_block)
-            self.read_variant_headers()
+            self.read_variant_headers(include_padding=True)
             for k, header_array in self.variant_headers.items():
-                outfile.write(header_array.tobytes())
+                header_bytes = header_array.tobytes()
+                if self.file_version > SeismicZfpVersion("0.2.1"):
+                    # Readers of these versions expect every header array padded to 512 bytes
+                    header_bytes += bytes(-len(header_bytes) % 512)
+                outfile.write(header_bytes)
 
 
 class NumpyConverter(object):
